@@ -395,6 +395,14 @@ func (o *DatReaderOptimizer) Optimize(rules []*config_parser.RoutingRule) ([]*co
 					}
 					newParams = append(newParams, params...)
 				}
+				if len(f.Params) != 0 && len(newParams) == 0 {
+					// Every parameter was a geodata reference that expanded to nothing (empty
+					// category, attribute filter that hits no entry). A function without parameters
+					// does not mean "matches nothing" to every consumer: dae's internal DNS selectors
+					// read sub()/node()/subnode() as a catch-all.
+					results <- ruleResult{idx, nil, fmt.Errorf("'%v': geodata expansion leaves the function without parameters", f.String(false, false, false))}
+					return
+				}
 				f.Params = newParams
 			}
 			results <- ruleResult{idx, r, nil}
